@@ -229,6 +229,18 @@ func (d *Driver) Apply(s Step) bool {
 		}
 		return true
 
+	case "blockAtByte": // close the block at the next time whose byte `idx` (0 = lowest) equals the key separator '/' (0x2F)
+		idx := uint(s.I("idx"))
+		now := c.Time.Unix()
+		dt := int64(1)
+		for ; dt < 1<<25; dt++ {
+			if ((now+dt)>>(8*idx))&0xFF == 0x2F {
+				break
+			}
+		}
+		c.NextBlock(dt)
+		return true
+
 	case "fee":
 		d.FeeDenom = s.S("d")
 		if s.Has("amt") {
